@@ -898,6 +898,7 @@ func (u *Unit) callSiteClauses(st *State, fr *Frame, calleeName string, args []V
 		if cs.Callee != calleeName {
 			continue
 		}
+		cs.Matched = true
 		env := u.loopEnv(st, fr, fr.block)
 		for i, a := range args {
 			env.vars[fmt.Sprintf("$arg%d", i)] = a
